@@ -203,6 +203,27 @@ pub fn constructs() -> Vec<K> {
         )
       },
     },
+    // a name introduced by the expression that is spelled like a built-in function, invoked: the introduced function is meant
+    K {
+      name: "invoke-entry-named-like-a-built-in",
+      arity: 2,
+      build: |o| {
+        T::Path(
+          Box::new(T::Ctx(vec![("max".into(), T::Func(vec![("p".into(), None), ("q".into(), None)], Box::new(T::List(vec![v("q"), v("p")])))), ("r".into(), T::Call(Box::new(v("max")), vec![o[0].clone(), o[1].clone()]))])),
+          "r".into(),
+        )
+      },
+    },
+    K {
+      name: "invoke-variable-named-like-a-built-in",
+      arity: 2,
+      build: |o| T::For(vec![("sum".into(), Dom::Single(T::List(vec![T::Func(vec![("p".into(), None)], Box::new(T::List(vec![v("p"), o[1].clone()])))])))], Box::new(T::Call(Box::new(v("sum")), vec![o[0].clone()]))),
+    },
+    K {
+      name: "invoke-parameter-named-like-a-built-in",
+      arity: 2,
+      build: |o| T::Call(Box::new(T::Func(vec![("count".into(), None)], Box::new(T::Call(Box::new(v("count")), vec![o[0].clone()])))), vec![T::Func(vec![("p".into(), None)], Box::new(T::List(vec![v("p"), o[1].clone()])))]),
+    },
     // one function invoked from the body of another: the outer parameter is read after the inner invocation has ended
     K {
       name: "invoke-nested",
